@@ -176,8 +176,152 @@ theorem iterScript_wf (f : Nat) : ∀ (s : Bytes) (ops : List Elem), iterScript 
                   simp only [List.length_take]; omega
                 · exact ih _ r hr e he
 
+def sizeSum (ops : List Elem) : Nat := (ops.map fun e => e.encode.length).sum
+
+theorem pushData_length_le (d : Bytes) :
+    (pushData d).length ≤ 5 + d.length ∧
+    (d.length ≤ 0xffff → (pushData d).length ≤ 3 + d.length) ∧
+    (d.length ≤ 0xff → (pushData d).length ≤ 2 + d.length) ∧
+    (d.length < 0x4c → (pushData d).length ≤ 1 + d.length) := by
+  unfold pushData
+  split
+  · simp; omega
+  · split
+    · simp; omega
+    · split
+      · simp; omega
+      · simp; omega
+
+theorem encode_length_pos (e : Elem) : 1 ≤ e.encode.length := by
+  cases e with
+  | zero => simp [Elem.encode]
+  | op c => simp [Elem.encode]
+  | push d =>
+    simp only [Elem.encode, pushData]
+    split <;> (try split) <;> (try split) <;> simp
+
+/-- the canonical re-encoding of the operations of a script is never longer than the script -/
+theorem iterScript_size (f : Nat) : ∀ (s : Bytes) (ops : List Elem), iterScript f s = some ops →
+    sizeSum ops ≤ s.length := by
+  induction f with
+  | zero =>
+    intro s ops h
+    cases s with
+    | nil => simp [iterScript] at h; subst h; simp [sizeSum]
+    | cons _ _ => simp [iterScript] at h
+  | succ f ih =>
+    intro s ops h
+    cases s with
+    | nil => simp at h; subst h; simp [sizeSum]
+    | cons c rest =>
+      simp only [iterScript] at h
+      generalize hlb : (if c.toNat < 76 then 0 else if c.toNat = 76 then 1 else if c.toNat = 77 then 2 else 4) = lb at h
+      generalize hn : (if c.toNat < 76 then c.toNat else Bytes.leVal (List.take lb rest)) = n at h
+      by_cases hc : c.toNat > 78
+      · simp only [hc, if_true] at h
+        cases hr : iterScript f rest with
+        | none => simp [hr] at h
+        | some r =>
+          simp [hr] at h; subst h
+          have := ih rest r hr
+          simp only [sizeSum, List.map_cons, List.sum_cons, Elem.encode, List.length_cons, List.length_nil] at this ⊢
+          omega
+      · simp only [hc, if_false] at h
+        by_cases hz : c.toNat = 0
+        · simp only [hz, if_true] at h
+          cases hr : iterScript f rest with
+          | none => simp [hr] at h
+          | some r =>
+            simp [hr] at h; subst h
+            have := ih rest r hr
+            simp only [sizeSum, List.map_cons, List.sum_cons, Elem.encode, List.length_cons, List.length_nil] at this ⊢
+            omega
+        · simp only [hz, if_false] at h
+          by_cases h1 : rest.length < lb
+          · rw [if_pos h1] at h; cases h
+          · rw [if_neg h1] at h
+            by_cases h2 : (List.drop lb rest).length < n
+            · rw [if_pos h2] at h; cases h
+            · rw [if_neg h2] at h
+              cases hr : iterScript f (List.drop n (List.drop lb rest)) with
+              | none => rw [hr] at h; cases h
+              | some r =>
+                rw [hr] at h
+                simp only [Option.map] at h
+                injection h with h
+                subst h
+                have hrest := ih _ r hr
+                simp only [List.length_drop] at hrest h2
+                have hd : (List.take n (List.drop lb rest)).length = n := by
+                  simp only [List.length_take, List.length_drop]; omega
+                obtain ⟨p5, p3, p2, p1⟩ := pushData_length_le (List.take n (List.drop lb rest))
+                rw [hd] at p5 p3 p2 p1
+                have hbound : (pushData (List.take n (List.drop lb rest))).length ≤ 1 + lb + n := by
+                  by_cases c1 : c.toNat < 76
+                  · simp only [c1, if_true] at hlb hn
+                    have := p1 (by omega); omega
+                  · simp only [c1, if_false] at hlb hn
+                    have hv := leVal_lt (List.take lb rest)
+                    have hl : (List.take lb rest).length = lb := by simp only [List.length_take]; omega
+                    rw [hl, hn] at hv
+                    by_cases c2 : c.toNat = 76
+                    · simp only [c2, if_true] at hlb
+                      subst hlb
+                      have := p2 (by omega); omega
+                    · simp only [c2, if_false] at hlb
+                      by_cases c3 : c.toNat = 77
+                      · simp only [c3, if_true] at hlb
+                        subst hlb
+                        have := p3 (by omega); omega
+                      · simp only [c3, if_false] at hlb
+                        subst hlb
+                        omega
+                simp only [sizeSum, List.map_cons, List.sum_cons, Elem.encode, List.length_cons] at hrest ⊢
+                omega
+
 theorem elems_wf (s : Bytes) (ops : List Elem) (h : elems s = some ops) : ∀ e ∈ ops, e.WF :=
   iterScript_wf _ s ops h
+
+theorem sizeSum_ge_length (ops : List Elem) : ops.length ≤ sizeSum ops := by
+  induction ops with
+  | nil => simp [sizeSum]
+  | cons e es ih =>
+    have := encode_length_pos e
+    simp only [sizeSum, List.map_cons, List.sum_cons, List.length_cons] at ih ⊢
+    omega
+
+theorem sizeSum_append (a b : List Elem) : sizeSum (a ++ b) = sizeSum a + sizeSum b := by
+  simp [sizeSum, List.sum_append]
+
+/-- the cleared script is never longer than the original -/
+theorem clearScript_length_le (s s' : Bytes) (h : clearScript s = some s') : s'.length ≤ s.length := by
+  unfold clearScript at h
+  cases he : elems s with
+  | none => simp [he] at h
+  | some ops =>
+    cases hl : ops.getLast? with
+    | none => simp [he, hl] at h
+    | some l =>
+      simp [he, hl] at h
+      subst h
+      have hsz := iterScript_size _ s ops he
+      have hsplit : ops = ops.dropLast ++ [l] := by
+        have hne : ops ≠ [] := by intro h0; subst h0; simp at hl
+        have h1 := List.dropLast_concat_getLast hne
+        have h2 : ops.getLast hne = l := by
+          have := List.getLast?_eq_some_getLast hne
+          rw [hl] at this
+          exact (Option.some.inj this).symm
+        rw [h2] at h1
+        exact h1.symm
+      have h1 : sizeSum ops = sizeSum ops.dropLast + l.encode.length := by
+        conv => lhs; rw [hsplit]
+        rw [sizeSum_append]
+        simp [sizeSum]
+      have h2 := sizeSum_ge_length ops.dropLast
+      simp only [List.length_dropLast] at h2
+      simp only [List.length_append, List.length_replicate]
+      omega
 
 end Btc
 end PowHsm
